@@ -50,6 +50,21 @@ Theorem streams_piece_bound : forall ds sq mask m p, 0 < m -> In p (streams ds s
 Proof. exact VectSpec.streams_piece_bound. Qed.
 Print Assumptions streams_piece_bound.
 
+(* PER-CELL VECTORISATION: one two-vertex feature [cell; its downstream cell] per cell of the network inside the mask, in cell
+   order, and nothing else.  FEATURE PROPERTIES: first vertex, last vertex, and the pit flag (last two vertices equal) of
+   every path with at least two vertices. *)
+Theorem flwdir_tuples_spec : forall nxt mask, flwdir_tuples nxt mask =
+  map (fun i => [i; nth i nxt (length nxt)])
+      (filter (fun i => (nth i nxt (length nxt) <? length nxt)%nat && mget mask i) (seq 0 (length nxt))).
+Proof. exact VectSpec.flwdir_tuples_spec. Qed.
+Print Assumptions flwdir_tuples_spec.
+
+Theorem feature_props_spec : forall paths, feature_props paths =
+  map (fun p => (hd 0%nat p, last p (hd 0%nat p), (last p (hd 0%nat p) =? last (removelast p) (hd 0%nat p))%nat))
+      (filter (fun p => (2 <=? length p)%nat) paths).
+Proof. exact VectSpec.feature_props_spec. Qed.
+Print Assumptions feature_props_spec.
+
 (* non-vacuity: a Y network 1 -> 0 <- 2, 3 -> 1 ; streams [3;1;0], [2;0], the single-vertex [0] (dropped by features), [0;0]; cutting 5 vertices at max_len 2 *)
 Example streams_example : streams [0;0;0;1]%nat [0;1;2;3]%nat None 0 = [[3;1;0]; [2;0]; [0]; [0;0]]%nat
   /\ cut [1;2;3;4;5]%nat 2 = [[1;2;3]; [3;4;5]]%nat.
